@@ -162,6 +162,18 @@ fn composite(op: &str, t: &mut Toks) -> R<Option<String>> {
             t.end()?;
             vec![blk(|| show_vec(&cholesky(&a))), blk(|| show_vec(&sq(&a).cholesky().data))].join(" ")
         }
+        "chol_pair" => {
+            let a = t.vec()?;
+            let b = t.vec()?;
+            t.end()?;
+            vec![
+                blk(|| show_vec(&cholesky(&a))),
+                blk(|| show_vec(&sq(&a).cholesky().data)),
+                blk(|| show_vec(&cholesky(&b))),
+                blk(|| show_vec(&sq(&b).cholesky().data)),
+            ]
+            .join(" ")
+        }
         "both_tri" => {
             let kind = t.tok()?;
             let a = t.vec()?;
